@@ -144,6 +144,9 @@ func Setup(repo string, props []string, extraPkgs []string) (*World, error) {
 		if tgt == nil {
 			return nil, fmt.Errorf("contract %s: cannot resolve target call", c.Display())
 		}
+		if c.Case != "" {
+			continue
+		}
 		if tp := tgt.Pkg; c.Qualifier != "" || (tp != nil && tp.Pkg.Path() != c.Pkg) {
 			if w.ExtContracts[tgt] == nil {
 				w.ExtContracts[tgt] = map[string]*Contract{}
